@@ -51,6 +51,8 @@ type VerifHooks struct {
 	// OnceEnter/OnceExit bracket batch.start.Do: seq identifies the batch (in
 	// creation order), busy reports whether another goroutine is inside Do.
 	OnceEnter func(db *DB, seq int, busy func() bool)
+	// OnceExit is called when the goroutine leaves batch.trigger.
+	OnceExit func(db *DB, seq int)
 	// Order returns the permutation in which n sorted map entries are to be
 	// visited (nil: ascending).
 	Order func(n int) []int
@@ -167,12 +169,17 @@ func verifOnceEnter(b *batch) {
 }
 
 func verifOnceExit(b *batch) {
-	if h := verifHooks.Load(); h == nil || h.OnceEnter == nil {
+	h := verifHooks.Load()
+	if h == nil || h.OnceEnter == nil {
 		return
 	}
 	verifBatchMu.Lock()
+	seq := verifBatchSeq[b]
 	delete(verifBatchBusy, b)
 	verifBatchMu.Unlock()
+	if h.OnceExit != nil {
+		h.OnceExit(b.db, seq)
+	}
 }
 
 // VerifResetBatches forgets the batch bookkeeping between simulated runs.
